@@ -100,6 +100,8 @@ class Frame:
         self.env = env
         self.parent = parent  # lexically enclosing Frame (closures)
         self.returns: List[Tuple[Term, Term]] = []
+        self.is_helper = False  # frame of a helper analysed inline: its events belong to the caller
+        self.raised: Term = T.FALSE
 
     def lookup(self, name: str) -> Optional[Term]:
         f = self
@@ -108,6 +110,22 @@ class Frame:
                 return f.env[name]
             f = f.parent
         return None
+
+
+_KNOWN_API = None
+
+
+def _known_api():
+    global _KNOWN_API
+    if _KNOWN_API is None:
+        import json
+        import os
+        p = os.path.join(os.path.dirname(os.path.abspath(__file__)), "known_api.json")
+        try:
+            _KNOWN_API = frozenset(json.load(open(p))["functions"])
+        except OSError:
+            _KNOWN_API = frozenset()
+    return _KNOWN_API
 
 
 class Unsupported(Exception):
@@ -120,6 +138,7 @@ class SymEval:
                  self_types: Optional[Dict[str, str]] = None):
         self.model = model
         self.inline = set(inline)  # method / function simple names or qualnames to inline
+        self.helper_stack: List[str] = []  # helpers (functions not in the frozen API table) being analysed inline
         self.max_depth = max_depth
         self.inline_properties = inline_properties
         self.overrides = overrides or {}
@@ -308,12 +327,15 @@ class SymEval:
     def st_Return(self, st, frame):
         v = self.eval(st.value, frame) if st.value is not None else T.NONE
         frame.returns.append((self.live, v))
-        self.emit("return", frame.func, v, st, frame)
+        if not frame.is_helper:
+            self.emit("return", frame.func, v, st, frame)
         self.live = T.FALSE
 
     def st_Raise(self, st, frame):
         v = self.eval(st.exc, frame) if st.exc is not None else T.NONE
         self.emit("raise", frame.func, v, st, frame)
+        if frame.is_helper:
+            frame.raised = T.mk_or([frame.raised, self.live])
         self.live = T.FALSE
 
     def st_Assert(self, st, frame):
@@ -371,7 +393,7 @@ class SymEval:
             if a is None or b is None:
                 merged[k] = a if b is None else b  # defined on one side only
             else:
-                merged[k] = a if a == b else T.mk_ite(cond, a, b)
+                merged[k] = a if a == b else (_acc_join(a, b) or T.mk_ite(cond, a, b))
         mheap = {}
         for k in set(heap1) | set(heap2):
             a = heap1.get(k)
@@ -914,6 +936,17 @@ class SymEval:
             return r
         # in-repo callee?
         target = self.resolve(name, fterm, recv, method, frame)
+        if target is not None and self.is_new_helper(target) and len(self.helper_stack) < 3 and target.qualname not in self.helper_stack:
+            # a function the reference tree does not have: a helper extracted later; analyse it at the call site, with its
+            # events attributed to the caller
+            self_t = recv if (target.cls and target.parent is None and _first_param(target.node) in ("self",)) else None
+            if _first_param(target.node) == "cls" and target.cls:
+                self_t = recv if recv is not None else T.sym("cls")
+            self.helper_stack.append(target.qualname)
+            try:
+                return self.inline_call(target, args, kwargs, self_t, node, frame, as_helper=True)
+            finally:
+                self.helper_stack.pop()
         if target is not None and self.depth < self.max_depth and self.should_inline(target, name, method):
             self_t = recv if (target.cls and target.parent is None and _first_param(target.node) in ("self",)) else None
             if _first_param(target.node) == "cls" and target.cls:
@@ -968,6 +1001,10 @@ class SymEval:
             return True
         return False
 
+    def is_new_helper(self, target: FuncInfo) -> bool:
+        known = _known_api()
+        return bool(known) and target.qualname not in known and target.parent is None
+
     def should_inline(self, target: FuncInfo, name: str, method: Optional[str]) -> bool:
         return (target.qualname in self.inline) or (target.name in self.inline) or ("*" in self.inline)
 
@@ -1006,7 +1043,7 @@ class SymEval:
             return self.model.classes[q]
         return None
 
-    def inline_call(self, target: FuncInfo, args, kwargs, self_term, node, frame) -> Term:
+    def inline_call(self, target: FuncInfo, args, kwargs, self_term, node, frame, as_helper: bool = False) -> Term:
         a = target.node.args
         params = [p.arg for p in a.posonlyargs + a.args]
         env: Dict[str, Term] = {}
@@ -1050,16 +1087,19 @@ class SymEval:
                 env[p.arg] = self.eval(d, mod_frame) if d is not None else T.sym(f"?{p.arg}")
         cls = self.model.classes.get(target.cls) if target.cls else None
         parent = None
-        sub = Frame(target.qualname, target.module, cls, env, parent=parent)
+        sub = Frame(frame.func if as_helper else target.qualname, target.module, cls, env, parent=parent)
         if is_method and "self" in env and cls is not None:
             self.types.setdefault(env["self"], cls.qualname)
         live0 = self.live
-        self.depth += 1
+        sub.is_helper = as_helper
+        if not as_helper:
+            self.depth += 1
         try:
             self.exec_block(target.node.body, sub)
         finally:
-            self.depth -= 1
-        self.live = live0
+            if not as_helper:
+                self.depth -= 1
+        self.live = live0 if sub.raised == T.FALSE else T.mk_and([live0, T.mk_not(sub.raised)])
         return merge_returns(sub.returns)
 
     def apply_closure(self, cterm, args, kwargs, node, frame) -> Term:
@@ -1166,6 +1206,16 @@ class SymEval:
                          lambda: out.__setitem__("b", self.call(g, list(ops), [], node, frame)), frame)
             self.emit("call", "jax.lax.cond", pred, node, frame, args=tuple(args))
             return T.mk_ite(pred, out.get("a", T.NONE), out.get("b", T.NONE))
+        if name == "jax.tree_util.tree_map" and len(args) >= 2 and args[0][0] == "ite" and args[0][2][0] == "closure" and args[0][3][0] == "closure":
+            # the mapped function is selected by a condition: map with each and merge
+            cnd, fa, fb = args[0][1], args[0][2], args[0][3]
+            out = {}
+            self._branch(cnd, lambda: out.__setitem__("a", self.interpret(name, fterm, [fa] + list(args[1:]), kwargs, node, frame, recv, method)),
+                         lambda: out.__setitem__("b", self.interpret(name, fterm, [fb] + list(args[1:]), kwargs, node, frame, recv, method)), frame)
+            a_, b_ = out.get("a", T.NONE), out.get("b", T.NONE)
+            if a_[0] == "list" and b_[0] == "list" and len(a_[1]) == len(b_[1]):
+                return ("list", tuple(T.mk_ite(cnd, x, y) for x, y in zip(a_[1], b_[1])))
+            return T.mk_ite(cnd, a_, b_)
         if name == "jax.tree_util.tree_map" and len(args) >= 2 and args[0][0] == "closure":
             # leafwise application: the identity on leaves is what the algebraic rules need
             trees = list(args[1:])
@@ -1214,6 +1264,24 @@ class SymEval:
         if name == "isinstance" and len(args) == 2:
             return T.mk_call("isinstance", args, [], None)
         return None
+
+
+def _acc_join(a: Term, b: Term) -> Optional[Term]:
+    """phi of a local list that one branch appended to: the items carry their own guards, so the longer accumulation is
+    the merged value (instead of ite(cond, longer, shorter))."""
+    def parts(t):
+        if t[0] == "list":
+            return t, ()
+        if t[0] == "accum":
+            return t[1], t[2]
+        return None
+    pa, pb = parts(a), parts(b)
+    if pa is None or pb is None or pa[0] != pb[0] or (not pa[1] and not pb[1]):
+        return None
+    short, long_ = (pa, pb) if len(pa[1]) <= len(pb[1]) else (pb, pa)
+    if long_[1][:len(short[1])] != short[1]:
+        return None
+    return ("accum", long_[0], long_[1])
 
 
 def _acc_append(t: Term, item) -> Optional[Term]:
